@@ -203,7 +203,7 @@ def trees(tier):
         # one representative per (root type, child type) with lambdas, every tree type with each other quantity kind
         seen_t, keep = set(), []
         for s in base:
-            k = (s["t"], s.get("v", {}).get("t") if "v" in s else None)
+            k = (s["t"], s.get("range"), s.get("v", {}).get("t") if "v" in s else None)
             if k not in seen_t:
                 seen_t.add(k)
                 keep.append(s)
